@@ -295,6 +295,28 @@ impl<C: Config, Q: Query> Snapshot<C, Q> {
 
         let kind = engine.get_query_kind(callee).await;
 
+        // The callee's transitive firewall callees are no longer the ones this
+        // query has accounted for (the callee was re-executed or repaired on
+        // behalf of another request): the firewalls it reaches now were not
+        // covered by the firewall repair done for the root of this request,
+        // so its clean edges prove nothing and it has to be repaired
+        // pedantically.
+        let pedantic_repair = pedantic_repair
+            || (!kind.is_input() && !kind.is_firewall() && {
+                // SAFETY: the callee has been observed, so its node info
+                // exists; a concurrent repair can only make this check
+                // fire needlessly.
+                let callee_node_info =
+                    unsafe { engine.get_node_info_unchecked(callee).await };
+
+                callee_node_info.transitive_firewall_callees_fingerprint()
+                    != forward_edge_observation
+                        .0
+                        .get(callee)
+                        .unwrap()
+                        .seen_transitive_firewall_callees_fingerprint
+            });
+
         // NOTE: if the callee is an input (explicitly set), it's impossible
         // to try to repair it, so we'll skip repairing and directly
         // compare the fingerprint.
